@@ -5,7 +5,7 @@
    modelled: those handlers only call Raw and Connected()). *)
 From Coq Require Import List Arith Bool String ZArith.
 From Verif Require Import Lts LifecycleLts LifecycleBase LifecycleInv LifecycleInvC LifecycleInvE
-  LifecycleThms LifecycleLive LifecycleRefuted LifecycleMeasure Consts Facts.
+  LifecycleThms LifecycleLive LifecycleRefuted LifecycleMeasure Consts Facts DialFacts.
 Import ListNotations.
 Local Open Scope nat_scope.
 
@@ -54,6 +54,21 @@ Lemma tie_C07 :
   /\ conds_client_Conn_runLoop = [] /\ conds_client_Conn_ping = [] /\ conds_client_Conn_Raw = []
   /\ conds_client_Conn_write
     = ["!conn.cfg.Flood"; "t != 0"; "err != nil"; "err != nil"; "strings.HasPrefix(line, ""PASS"")"]%string.
+Proof. repeat split; vm_compute; reflexivity. Qed.
+
+(* tie: the client's own dialer, built once in Client() and reused for every (re)connect, gets a
+   per-dial Timeout and nothing absolute: the only assignments to its fields are these three (an
+   absolute dialer.Deadline fixed at creation would make every reconnect later than
+   Config.Timeout fail — invisible to sessions that dial through a proxy), and no condition of
+   Client() mentions the timeout *)
+Lemma tie_C07_dialer :
+  filter (String.prefix "dialer.") assigns_client_Client
+    = ["dialer.Timeout = cfg.Timeout"; "dialer.DualStack = cfg.DualStack"; "dialer.LocalAddr = local"]%string
+  /\ conds_client_Client
+    = ["cfg == nil"; "cfg.Me == nil || cfg.Me.Nick == """" || cfg.Me.Ident == """""; "cfg.LocalAddr != """"";
+       "!hasPort(cfg.LocalAddr)"; "err == nil"; "cfg.Sasl != nil && !cfg.EnableCapabilityNegotiation"]%string
+  /\ filter (fun p => String.eqb (fst (fst p)) "Conn.internalConnect") dial_sites_client
+    = [("Conn.internalConnect", "conn.dialer.DialContext", "conn.cfg.Server")]%string.
 Proof. repeat split; vm_compute; reflexivity. Qed.
 
 Notation reach hm hl w sched := (run (fstep hm hl) (init w) sched).
